@@ -27,12 +27,17 @@ def base(shape):
             'imm8': {'operand_values': {'i8': {'type': 'numeric', 'argument': {'size': 8, 'byte_align': True}}}},
             'regs': {'operand_values': {'ra': {'type': 'register', 'register': 'a', 'bytecode': {'value': 1, 'size': 4}}}},
             'bits': {'operand_values': {'bt': {'type': 'numeric_bytecode', 'bytecode': {'size': 4, 'min': 0, 'max': 7}}}},
+            # a range of exactly one value (not inverted), a range over negative numbers
+            'point': {'operand_values': {'pt': {'type': 'numeric_bytecode', 'bytecode': {'size': 4, 'min': 5, 'max': 5}}}},
+            'signed': {'operand_values': {'sg': {'type': 'numeric_bytecode', 'bytecode': {'size': 4, 'min': -8, 'max': -1}}}},
         },
         'instructions': {
             'nop': {'bytecode': {'value': 0, 'size': 8}},
             'ld': {'bytecode': {'value': 1, 'size': 8}, 'operands': {'count': 1, 'operand_sets': {'list': ['imm8']}}},
             'mv': {'bytecode': {'value': 2, 'size': 4}, 'operands': {'count': 1, 'operand_sets': {'list': ['regs']}}},
             'bt': {'bytecode': {'value': 3, 'size': 4}, 'operands': {'count': 1, 'operand_sets': {'list': ['bits']}}},
+            'pt': {'bytecode': {'value': 4, 'size': 4}, 'operands': {'count': 1, 'operand_sets': {'list': ['point']}}},
+            'sg': {'bytecode': {'value': 5, 'size': 4}, 'operands': {'count': 1, 'operand_sets': {'list': ['signed']}}},
         },
     }
     if shape == 'minimal':
